@@ -30,6 +30,27 @@ def strategy(tier):
     return substgen.subst_case(kinds=substgen.HOSTILE_KINDS, sat=True)
 
 
+def exhaustive(tier):
+    """every untyped position (where the value is converted with from_native rather than validated member by member)
+    x every small value that is not a plain one, bare and one / two levels down"""
+    from ..codec import Zoo
+    any_, dict_, list_ = {"t": "any"}, {"t": "dict"}, {"t": "list", "form": "untyped"}
+    targets = [any_, dict_, list_, {"t": "dict", "entries": [], "relaxed": True}, {"t": "list", "form": "ellipsis", "elems": []},
+               {"t": "any", "alts": [dict_, list_]}, {"t": "any", "alts": [{"t": "none"}, any_]},
+               {"t": "dict", "entries": [{"key": "a", "opt": False, "spec": any_}], "relaxed": False},
+               {"t": "dict", "entries": [{"key": "a", "opt": True, "spec": dict_}], "relaxed": True},
+               {"t": "list", "form": "typed", "elem": any_}, {"t": "list", "form": "head", "elems": [{"t": "int"}]},
+               {"t": "list", "form": "contains", "elems": [{"t": "int"}, {"t": "int"}]},
+               {"t": "alias", "name": "T", "spec": any_}]
+    odd = [{...: 1}, {...: ...}, {"k": 1, ...: ...}, {...: None, "k": 1}, ..., (1, 2), (), Zoo("set"), Zoo("frozenset"), Zoo("decimal"),
+           Zoo("object"), Zoo("nil"), Zoo("bytearray"), Zoo("uuid1"), Zoo("mappingproxy"), Zoo("userdict"), Zoo("range"),
+           Zoo("nan"), Zoo("int_subclass"), Zoo("dict_subclass"), Zoo("defaultdict")]
+    for spec in targets:
+        for x in odd:
+            for v in (x, {"a": x}, [x], [1, 2, x], {"a": {"b": x}}, [[x]], {"a": [x, 1]}, [1, x, 1, 2]):
+                yield {"spec": spec, "value": v, "full": None, "kind": "odd-at-untyped-position", "rng": [0.5], "share": False}
+
+
 def _r(x):
     try:
         return repr(x)
@@ -111,7 +132,7 @@ def check(case, ctx):
     except DeclarationError as e:
         ctx.skip_undeclarable(None, e)
         return
-    v = values.realize(case["value"])
+    v = substgen.realize(case)
     before = canon.canon(S)
     ctx.label("kind:" + case["kind"])
     try:
